@@ -18,7 +18,7 @@ import fw
 
 NAME = 'sched'
 DRIVER = 'Sched'
-CASES = {'quick': 250, 'thorough': 6000, 'search': 1500}
+CASES = {'quick': 800, 'thorough': 6000, 'search': 1500}
 
 ROOT = 1000
 LEVELS = {'server': 0, 'cell': 1, 'pod': 2, 'rack': 3}
@@ -73,10 +73,18 @@ def gen_case(rng, pid, tier):
     servers = []
     caps = [4, 8, 10, 16]
     nsrv = rng.randint(2, 6)
+    # "tight" cells (20%): equal-sized servers, each filled by one instance of exactly its size, few
+    # arrivals afterwards - every placement then needs an eviction, and lease renewals matter
+    tight = rng.random() < 0.2
+    if tight:
+        nsrv = rng.randint(2, 4)
+        labels = [0]
     for i in range(1, nsrv + 1):
         cap = [rng.choice(caps) for _ in range(3)]
-        servers.append([i, rng.choice(racks), cap, rng.choice(labels), rng.choice([0, 0, 2, 6]),
-                        rng.choice([50, 500, 100000])])
+        if tight:
+            cap = [rng.choice([8, 10])] * 3
+        servers.append([i, rng.choice(racks), cap, rng.choice(labels), rng.choice([0, 0, 2, 6]) if not tight else 0,
+                        rng.choice([50, 500, 100000]) if not tight else rng.choice([300, 300, 100000])])
     # allocations: id, label, path, reserved, rank, rank_adj, max_util, traits
     allocs = []
     alid = 0
@@ -104,6 +112,8 @@ def gen_case(rng, pid, tier):
     if rng.random() < 0.7:
         ops.append(['idg', 1, rng.randint(0, 3)])
 
+    made = []
+
     def newapp():
         napp[0] += 1
         aff = rng.randrange(4)
@@ -112,13 +122,36 @@ def gen_case(rng, pid, tier):
              rng.choice([0, 30, 30, None]), rng.choice([0, 0, 0, 40, 100]),
              rng.choice([None, None, 1, 1, 2]), rng.random() < 0.12, rng.choice([0, 0, 0, 2, 4]),
              rng.choice(allocs)[0]]
+        if made and rng.random() < 0.3:
+            # a twin: same placement shape (affinity, lease, traits, allocation) as an earlier instance,
+            # demand at least as large - what the feasibility tracker and the restore path key on
+            t = rng.choice(made)
+            a[3] = [d + rng.choice([0, 0, 0, 1]) for d in t[3]]
+            a[4], a[5], a[7], a[10], a[11] = t[4], t[5], t[7], t[10], t[11]
+            if rng.random() < 0.5:
+                a[8] = t[8]
+        made.append(a)
         live.append(napp[0])
         return a
 
     steps = rng.randint(25, 70)
     now = 0
+    if tight:
+        for srv in servers:
+            a = newapp()
+            a[3] = list(srv[2])
+            a[7] = rng.choice([0, 100, 100])
+            a[8], a[9], a[10] = None, False, 0
+            a[11] = allocs[0][0]
+            ops.append(a)
+        now = 100
+        ops.append(['tick', now])
+        ops.append(['cycle'])
+        steps = rng.randint(10, 30)
     for _ in range(steps):
         r = rng.random()
+        if tight and r < 0.30 and live:
+            r = 0.30 + rng.random() * 0.70 if rng.random() < 0.75 else r
         if r < 0.30 or not live:
             ops.append(newapp())
         elif r < 0.36:
@@ -157,12 +190,29 @@ def gen_case(rng, pid, tier):
         elif r < 0.82 and alive_srv:
             ops.append(['reload', rng.choice(alive_srv), [rng.choice(caps) for _ in range(3)],
                         rng.choice(labels), rng.choice([0, 0, 2, 6]), now + rng.choice([50, 500, 100000])])
+        elif r < 0.835 and alive_srv and pid in ('C05', 'C03', 'C01'):
+            # combined window: instances lose their server (keeping identities) while a group shrinks
+            s = rng.choice(alive_srv)
+            ops.append(['reload', s, [rng.choice(caps) for _ in range(3)],
+                        rng.choice(labels), rng.choice([0, 0, 2, 6]), now + rng.choice([50, 500, 100000])])
+            ops.append(['idg', rng.choice(groups), rng.randint(0, 2)])
+            now += 2
+            ops.append(['tick', now])
+            ops.append(['cycle'])
         elif r < 0.84 and alive_srv:
             ops.append(['validuntil', rng.choice(alive_srv), now + rng.choice([10, 60, 1000])])
         elif r < 0.86:
             al = rng.choice(allocs)
             if al[2]:
                 ops.append(['alloctraits', al[0], rng.choice([0, 2, 4])])
+        elif r < 0.885 and alive_srv and live:
+            # a server stops being up while an instance asks for a lease renewal that will fail later
+            ops.append(['state', rng.choice(alive_srv), rng.choice(['frozen', 'frozen', 'down'])])
+            for a_ in rng.sample(live, min(len(live), rng.randint(1, 3))):
+                ops.append(['renew', a_])
+            now += rng.choice([20, 40, 60, 200])
+            ops.append(['tick', now])
+            ops.append(['cycle'])
         else:
             now += 2
             ops.append(['tick', now])
@@ -170,6 +220,21 @@ def gen_case(rng, pid, tier):
     now += 2
     ops.append(['tick', now])
     ops.append(['cycle'])
+    if pid in ('C01', 'C02') and rng.random() < 0.3:
+        # large magnitudes with near-exact fits: capacities k*2^17, demands d*2^17 + {-1,0,1,2}
+        big = 2 ** 17
+        for srv in servers:
+            srv[2] = [x * big for x in srv[2]]
+        for al in allocs:
+            if al[3]:
+                al[3] = [x * big for x in al[3]]
+        for op in ops:
+            if op[0] == 'app':
+                op[3] = [x * big + rng.choice([0, 0, 0, 1, -1, 2]) for x in op[3]]
+            elif op[0] == 'server':
+                op[3] = [x * big for x in op[3]]
+            elif op[0] == 'reload':
+                op[2] = [x * big for x in op[2]]
     case = {'buckets': buckets, 'servers': servers, 'allocs': allocs, 'ops': ops}
     if pid == 'C02':
         # probe mode: drive to a fixed point, then one probe and one cycle (see run_impl)
